@@ -497,5 +497,164 @@ theorem descs_cover (rows : List Row) (ws : Waits) (w : Int × Int) (zl : Bool)
   · obtain ⟨i, hs, hdd⟩ := kernelRun_op rows _ ws _ zl _ _ d hd hty
     exact coverOK_own_span rows d i hty hs hdd
 
+/-! ### the attributed event is an event of the same thread / stream -/
+
+/-- The walk only ever remembers events of the family `P` (the events of the thread it walks). -/
+structure FamInv (P : Int → Prop) (s : DS) : Prop where
+  last : ∀ n, s.lastNode = some n → P n.ev
+  high : ∀ n, s.lastHigh = some n → P n.ev
+  par : 0 ≤ s.lastPar → P s.lastPar
+
+def DescFam (P : Int → Prop) (d : Desc) : Prop := P d.src.ev ∧ P d.dst.ev ∧ (0 ≤ d.par → P d.par)
+
+theorem dfsStep_fam (P : Int → Prop) (nodeEv : Int → Bool) (parent : Int → Int) (blocking : Int → Bool)
+    (s : DS) (t : Tok) (ht : P t.idx) (hp : 0 ≤ parent t.idx → P (parent t.idx)) (inv : FamInv P s) :
+    FamInv P (dfsStep nodeEv parent blocking s t).1 ∧
+    ∀ d ∈ (dfsStep nodeEv parent blocking s t).2, DescFam P d := by
+  unfold dfsStep
+  split
+  · refine ⟨?_, by intro d hd; cases hd⟩
+    split
+    · exact ⟨inv.last, inv.high, hp⟩
+    · exact inv
+  · split
+    · refine ⟨⟨?_, inv.high, hp⟩, ?_⟩
+      · intro n h; simp at h; subst h; exact ht
+      · intro d hd
+        simp only [List.mem_append] at hd
+        rcases hd with hd | hd
+        · cases hdp : s.depth <;> cases hh : s.lastHigh <;> simp [hdp, hh] at hd
+          subst hd
+          exact ⟨inv.high _ hh, ht, by intro h; simp at h⟩
+        · cases hln : s.lastNode <;> simp [hln] at hd
+          subst hd
+          exact ⟨inv.last _ hln, ht, inv.par⟩
+    · have hspan : ∀ d ∈ (match s.lastNode with
+          | some ln => [(⟨ln, ⟨t.idx, false⟩, .op, blocking t.idx, s.lastPar⟩ : Desc)]
+          | none => []), DescFam P d := by
+        intro d hd
+        cases hln : s.lastNode <;> simp [hln] at hd
+        subst hd
+        exact ⟨inv.last _ hln, ht, inv.par⟩
+      simp only []
+      split
+      · refine ⟨⟨by intro n h; simp at h, ?_, inv.par⟩, hspan⟩
+        intro n h; simp at h; subst h; exact ht
+      · refine ⟨⟨?_, inv.high, hp⟩, hspan⟩
+        intro n h; simp at h; subst h; exact ht
+
+theorem dfsRun_fam (P : Int → Prop) (nodeEv : Int → Bool) (parent : Int → Int) (blocking : Int → Bool)
+    (toks : List Tok) (s : DS) (ht : ∀ t ∈ toks, P t.idx) (hp : ∀ t ∈ toks, 0 ≤ parent t.idx → P (parent t.idx))
+    (inv : FamInv P s) :
+    ∀ d ∈ dfsRun nodeEv parent blocking s toks, DescFam P d := by
+  induction toks generalizing s with
+  | nil => intro d hd; cases hd
+  | cons t ts ih =>
+    obtain ⟨hinv, hok⟩ := dfsStep_fam P nodeEv parent blocking s t (ht t List.mem_cons_self) (hp t List.mem_cons_self) inv
+    intro d hd
+    simp only [dfsRun, List.mem_append] at hd
+    rcases hd with hd | hd
+    · exact hok d hd
+    · exact ih _ (fun x hx => ht x (List.mem_cons_of_mem _ hx)) (fun x hx => hp x (List.mem_cons_of_mem _ hx)) hinv d hd
+
+/-- Every descriptor of a thread's walk joins events of that thread, and the recorded parent is one of them. -/
+theorem threadDescs_fam (rows clipped : List Row) (t : Int × Int)
+    (hrows : ∀ r ∈ clipped, findRow rows r.idx = some r)
+    (hdur : ∀ r ∈ clipped, 0 ≤ r.dur) (hidx : ∀ r ∈ clipped, 0 ≤ r.idx)
+    (hwf : C03.WF ((C13.threadRows clipped t).map fun r => (⟨r.idx, r.ts, max r.dur 0⟩ : C03.Ev))) :
+    ∀ d ∈ threadDescs clipped t, DescFam (fun i => ∃ r ∈ C13.threadRows clipped t, r.idx = i) d := by
+  unfold threadDescs
+  simp only []
+  split
+  · intro d hd; cases hd
+  · have hev : ∀ e ∈ ((C13.threadRows clipped t).map fun r => (⟨r.idx, r.ts, max r.dur 0⟩ : C03.Ev)),
+        0 ≤ e.idx ∧ tsOf rows ⟨e.idx, true⟩ = e.ts ∧ tsOf rows ⟨e.idx, false⟩ = e.ts + e.dur := by
+      intro e he
+      obtain ⟨r, hr, rfl⟩ := List.mem_map.mp he
+      have hrc : r ∈ clipped := (List.mem_filter.mp hr).1
+      have := hdur r hrc
+      refine ⟨hidx r hrc, by simp [tsOf, hrows r hrc, nodeTs], ?_⟩
+      simp [tsOf, hrows r hrc, nodeTs]
+      omega
+    have F := tokFacts_of_wf rows _ hwf hev
+    have hperm := (C03.sortToks_spec (C03.hasPO ((C13.threadRows clipped t).map fun r => (⟨r.idx, r.ts, max r.dur 0⟩ : C03.Ev))) hwf).1
+    have htok : ∀ tk ∈ C03.sortToks (C03.hasPO ((C13.threadRows clipped t).map fun r => (⟨r.idx, r.ts, max r.dur 0⟩ : C03.Ev)))
+        (C03.tokens ((C13.threadRows clipped t).map fun r => (⟨r.idx, r.ts, max r.dur 0⟩ : C03.Ev))),
+        ∃ r ∈ C13.threadRows clipped t, r.idx = tk.idx := by
+      intro tk htk
+      obtain ⟨e, he, h⟩ := C03.mem_tokens.mp (hperm.mem_iff.mp htk)
+      obtain ⟨r, hr, rfl⟩ := List.mem_map.mp he
+      refine ⟨r, hr, ?_⟩
+      rcases h with rfl | rfl <;> rfl
+    refine dfsRun_fam _ _ _ _ _ _ htok ?_ ⟨(by intro n h; cases h), (by intro n h; cases h), (by intro h; simp at h)⟩
+    intro tk htk hp
+    obtain ⟨done, rest, hsplit⟩ := List.append_of_mem htk
+    obtain ⟨⟨s0, hs0, hs0i, _⟩, _⟩ := F.lam.parentOpen done tk rest hsplit hp
+    obtain ⟨r, hr, hri⟩ := htok s0 (by rw [hsplit]; exact List.mem_append_left _ hs0)
+    exact ⟨r, hr, by rw [hri, hs0i]⟩
+
+
+theorem kernelRun_op_row (rows clipped : List Row) (ws : Waits) (q : Int → Option Int) (zl : Bool)
+    (ks : List Row) (st : KState) :
+    ∀ d ∈ kernelRun rows clipped ws q zl st ks, d.ty = .op →
+      ∃ r ∈ ks, d.src = ⟨r.idx, true⟩ ∧ d.dst = ⟨r.idx, false⟩ := by
+  induction ks generalizing st with
+  | nil => intro d hd; cases hd
+  | cons r rs ih =>
+    intro d hd hty
+    simp only [kernelRun, List.mem_append] at hd
+    rcases hd with hd | hd
+    · exact ⟨r, List.mem_cons_self, kernelStep_op rows clipped ws q zl st r d hd hty⟩
+    · obtain ⟨r', hr', h⟩ := ih _ d hd hty
+      exact ⟨r', List.mem_cons_of_mem _ hr', h⟩
+
+theorem kernelRows_sub (rows clipped : List Row) : ∀ r ∈ kernelRows rows clipped, r ∈ clipped := by
+  intro r hr
+  unfold kernelRows at hr
+  simp only [] at hr
+  exact (List.mem_filter.mp ((List.mergeSort_perm _ _).mem_iff.mp hr)).1
+
+/-- For a span descriptor: both nodes and the attributed event (unless it is the root) belong to `P`. -/
+def AttrFam (rows : List Row) (P : Int → Prop) (d : Desc) : Prop :=
+  P d.src.ev ∧ P d.dst.ev ∧
+    (0 ≤ attrEv (mkEdge rows d.src d.dst d.ty d.zero) d.par → P (attrEv (mkEdge rows d.src d.dst d.ty d.zero) d.par))
+
+theorem attrFam_of_descFam (rows : List Row) (P : Int → Prop) (d : Desc) (hty : d.ty = .op) (h : DescFam P d) :
+    AttrFam rows P d := by
+  obtain ⟨src, dst, ty, z, par⟩ := d
+  simp only at hty
+  subst hty
+  refine ⟨h.1, h.2.1, ?_⟩
+  simp only [attrEv_op]
+  split
+  · intro _; exact h.1
+  · split
+    · intro _; exact h.2.1
+    · exact h.2.2
+
+/-- Every span descriptor joins two nodes of one thread (one stream for a device activity), and the
+event it is attributed to, if any, is an event of that thread too. -/
+theorem descs_fam (rows : List Row) (ws : Waits) (w : Int × Int) (zl : Bool)
+    (hrows : ∀ r ∈ clip rows w, findRow rows r.idx = some r)
+    (hdur : ∀ r ∈ clip rows w, 0 ≤ r.dur) (hidx : ∀ r ∈ clip rows w, 0 ≤ r.idx)
+    (hwf : ∀ t ∈ C13.threadsOf (clip rows w), C03.WF ((C13.threadRows (clip rows w) t).map fun r => (⟨r.idx, r.ts, max r.dur 0⟩ : C03.Ev))) :
+    ∀ d ∈ descs rows (clip rows w) ws zl, d.ty = .op →
+      ∃ t, AttrFam rows (fun i => ∃ r ∈ C13.threadRows (clip rows w) t, r.idx = i) d := by
+  intro d hd hty
+  unfold descs at hd
+  rcases List.mem_append.mp hd with hd | hd
+  · obtain ⟨t, ht, hd⟩ := List.mem_flatMap.mp hd
+    exact ⟨t, attrFam_of_descFam rows _ d hty (threadDescs_fam rows _ t hrows hdur hidx (hwf t ht) d hd)⟩
+  · obtain ⟨r, hr, hs, hdd⟩ := kernelRun_op_row rows _ ws _ zl _ _ d hd hty
+    have hrc := kernelRows_sub rows _ r hr
+    have hin : ∃ r' ∈ C13.threadRows (clip rows w) (r.pid, r.tid), r'.idx = r.idx :=
+      ⟨r, List.mem_filter.mpr ⟨hrc, by simp [C13.threadRows]⟩, rfl⟩
+    obtain ⟨src, dst, ty, z, par⟩ := d
+    simp only at hty hs hdd
+    subst hty hs hdd
+    refine ⟨(r.pid, r.tid), hin, hin, ?_⟩
+    simp only [attrEv_op]
+    intro _; exact hin
+
 end Hta.C08
 
